@@ -37,6 +37,10 @@ type LayoutOpts struct {
 	// compressed by a streaming encoder set up for a 16 or 32 MiB window, which
 	// the frame header then announces (producers at high compression levels)
 	BigZstd bool
+	// Txns: some format-2 batches belong to a transaction and are followed by
+	// its commit or abort marker (a control batch); aborted ones are listed in
+	// the aborted-transactions index of read_committed fetch responses
+	Txns bool
 }
 
 // genBatch builds one physical batch holding `n` consecutive offsets starting
@@ -136,7 +140,22 @@ func genLog(t *Tape, c *Cluster, p *Partition, o LayoutOpts, start int64, nBatch
 	for i := 0; i < nBatches; i++ {
 		n := t.Range(o.Stream, 1, 6)
 		b := genBatch(t, o, p.LEO, n, &ts, tag)
+		txn := o.Txns && b.Magic == 2 && len(b.Records) > 0 && t.Intn("txn", 3) == 0
+		if txn {
+			b.Transactional, b.ProducerID, b.ProducerEpoch, b.BaseSequence = true, int64(4000+i), 0, 0
+		}
 		c.AppendPhysical(p, b, n)
+		if txn {
+			abort := t.Intn("txn", 2) == 0
+			kind := byte(1)
+			if abort {
+				kind = 0
+				p.Aborted = append(p.Aborted, AbortedTxn{ProducerID: b.ProducerID, First: b.BaseOffset, Last: p.LEO})
+			}
+			off := p.LEO
+			c.AppendPhysical(p, rc.Batch{Magic: 2, Control: true, Transactional: true, BaseOffset: off, ProducerID: b.ProducerID, ProducerEpoch: 0, BaseSequence: -1,
+				FirstTimestamp: ts, MaxTimestamp: ts, Records: []rc.Record{{Offset: off, Timestamp: ts, Key: []byte{0, 0, 0, kind}, Value: []byte{0, 0, 0, 0, 0, 0}}}}, 1)
+		}
 	}
 }
 
@@ -180,6 +199,21 @@ func (st *readerState) storedAtOrAfter(off int64) (rec *rc.Record, ok bool) {
 	return nil, false
 }
 
+// storedAny is storedAtOrAfter with the records of control batches
+// (transaction markers) included. kafka-go hands those to the application as
+// ordinary messages; the Java client filters them. The property says nothing
+// about transactional logs, so a marker may be delivered (as stored) or skipped.
+func (st *readerState) storedAny(off int64) (rec *rc.Record, control, ok bool) {
+	for _, b := range st.p.AllBatches {
+		for i := range b.Records {
+			if b.Records[i].Offset >= off {
+				return &b.Records[i], b.Control, true
+			}
+		}
+	}
+	return nil, false, false
+}
+
 func (st *readerState) beginFetch() {
 	st.inFetch, st.seeked, st.cands = true, false, nil
 	if st.seekInFlight {
@@ -221,9 +255,16 @@ func (st *readerState) matchFrom(pos int64, m kafka.Message) (rule, msg string) 
 	// walk stored records from `from`: every skipped record must have been removed by retention
 	off := from
 	for {
-		rec, ok := st.storedAtOrAfter(off)
+		rec, control, ok := st.storedAny(off)
 		if !ok {
 			return "R1-fabricated", fmt.Sprintf("delivered offset %d but no stored record at or after position %d", m.Offset, off)
+		}
+		if control && rec.Offset < m.Offset {
+			off = rec.Offset + 1 // a transaction marker may be skipped
+			continue
+		}
+		if control && rec.Offset == m.Offset {
+			st.s.Count("transaction-marker-delivered-as-message")
 		}
 		if rec.Offset > m.Offset {
 			return "R1-fabricated", fmt.Sprintf("delivered offset %d (value %q) is not a stored record (next stored record at or after position %d is %d); %s; record with that value: %s; layout: %s", m.Offset, trunc(m.Value), off, rec.Offset, st.batchDiag(rec.Offset), st.valueDiag(m.Value), st.layoutDiag(m.Offset))
@@ -364,6 +405,7 @@ func readerScenario(s *Sim, params map[string]string) {
 	lo.FarFuture = t.Intn("farfuture", 3) == 0
 	lo.LogAppend = t.Intn("farfuture", 3) == 0
 	lo.BigZstd = t.Intn("bigz", 3) == 0
+	lo.Txns = t.Intn("txn", 3) == 0
 	if v := params["layout"]; v == "plain" {
 		lo.Holes, lo.EmptyBatch, lo.MissingTail, lo.AbsInner = false, false, false, false
 	}
@@ -415,6 +457,7 @@ func readerScenario(s *Sim, params map[string]string) {
 		Dialer:           &kafka.Dialer{DialFunc: n.Dialer("reader"), ClientID: "sim-reader", Timeout: 3 * time.Second},
 		MinBytes:         minBytes,
 		MaxBytes:         maxBytes,
+		IsolationLevel:   Pick(t, "txn", kafka.ReadUncommitted, kafka.ReadCommitted),
 		MaxWait:          Pick(t, "cfg", 100*time.Millisecond, 500*time.Millisecond, 2*time.Second, 10*time.Second),
 		QueueCapacity:    Pick(t, "cfg", 1, 2, 100),
 		ReadBatchTimeout: Pick(t, "cfg", 10*time.Second, time.Second),
